@@ -6089,6 +6089,271 @@ impl Readable for RawVal {
 	}
 }
 
+
+// ---------------------------------------------------------------------------------------------
+// run `deferred`: the DEFERRED resize at every step of the growth sequence.  A resize falls due
+// while a transaction is open (an iterator of another thread, or the calling thread's own iterator
+// and then its batch); the waiter thread resizes after everything is closed; meanwhile threads that
+// are allowed through the gate commit MORE data; threads parked at the gate proceed afterwards and
+// write more than the old map had room for.  Nothing may fail for lack of space and the map after
+// the wait must be at least the planned size and a whole number of chunks (hence pages).
+// ---------------------------------------------------------------------------------------------
+fn mode_deferred(work: &str, seed: u64, thorough: bool) {
+	const CHUNK: u64 = 1_048_576;
+	const REC: usize = 32_768;
+	let mut out = Out::stdout();
+	let mut rng = Rng::new(seed ^ 0x6465_6672);
+	let steps = if thorough { 7 } else { 5 };
+	let mut variants: Vec<(&str, &str)> = vec![];
+	for h in ["other-iter", "self-iter"] {
+		for n in ["one", "half", "max"] {
+			variants.push((h, n));
+		}
+	}
+	let (mut n_steps, mut n_fail, mut n_hang, mut n_bigger, mut n_during) = (0u64, 0u64, 0u64, 0u64, 0u64);
+	let mut seq: Vec<String> = vec![];
+	for (vi, (holder, nsel)) in variants.iter().enumerate() {
+		let dir = format!("{}/deferred_{}", work, vi);
+		let _ = std::fs::remove_dir_all(&dir);
+		let store = Arc::new(open_store(&dir));
+		let toks: Vec<String> = all_dbs().iter().map(|d| db_tok(*d)).collect();
+		out.line(&format!("kv new [{}]", toks.join(",")), "ok");
+		let mut key = 0u32;
+		let mut hist: Vec<String> = vec![];
+		let mut maps: Vec<u64> = vec![];
+		for step in 0..steps {
+			// ---- 1. ordinary growth up to the trigger
+			let mut fill_fail: Option<String> = None;
+			loop {
+				let m = meta_info(&dir).unwrap_or((CHUNK, 0, 0));
+				if m.1 * 4096 * 10 > 9 * m.0 {
+					break;
+				}
+				let r = store.batch().and_then(|mut b| {
+					b.put(Some(b'A'), &key.to_be_bytes(), &vec![(key % 251) as u8; REC])?;
+					b.commit()
+				});
+				key += 1;
+				if let Err(e) = r {
+					fill_fail = Some(format!("{:?}", e));
+					break;
+				}
+			}
+			let m = meta_info(&dir).unwrap_or((CHUNK, 0, 0));
+			let (map_before, used_before) = (m.0, m.1 * 4096);
+			maps.push(map_before);
+			hist.push(format!("fill to {} of {}", used_before, map_before));
+			if let Some(e) = fill_fail {
+				n_fail += 1;
+				out.raw(&format!("#ORACLE-FAIL C18 deferred resize [{} {}]: an ordinary single-record batch failed while filling: {} | history: {}", holder, nsel, e, hist.join("; ")));
+				break;
+			}
+			let free = map_before.saturating_sub(used_before);
+			let nmax = (free / 45_000).saturating_sub(1).max(1);
+			let n_during_wait = match *nsel {
+				"one" => 1,
+				"half" => (nmax / 2).max(1),
+				_ => nmax,
+			};
+			// what the released batches write together: more than the old map had left
+			let big = (map_before * 12 / 100 / REC as u64 + 2) as u32;
+			n_steps += 1;
+			n_during += n_during_wait;
+			let mut fails: Vec<String> = vec![];
+			let mut hung = false;
+			// ---- 2. the holder, the trigger, the parked batches
+			let (t2_cmd, t2_rx) = mpsc::channel::<&'static str>();
+			let (t2_ack_tx, t2_ack) = mpsc::channel::<String>();
+			let (p_tick_tx, p_tick) = mpsc::channel::<()>();
+			let (done_tx, done_rx) = mpsc::channel::<(String, Result<(), String>)>();
+			let stop = Arc::new(std::sync::atomic::AtomicBool::new(false));
+			let self_iter = *holder == "self-iter";
+			let base = key;
+			key += n_during_wait as u32 + big + 16;
+			let t2 = {
+				let store = store.clone();
+				let ack = t2_ack_tx.clone();
+				thread::spawn(move || {
+					global::set_local_chain_type(ChainTypes::AutomatedTesting);
+					let it = store.iter(Some(b'B'), kvpair);
+					let _ = ack.send("held".into());
+					let mut own_batch: Option<Batch<'_>> = None;
+					let mut k = base;
+					for cmd in t2_rx.iter() {
+						match cmd {
+							"trigger" => {
+								// the calling thread itself holds an iterator: batch() defers the resize and returns
+								match store.batch() {
+									Ok(b) => {
+										own_batch = Some(b);
+										let _ = ack.send("ok".into());
+									}
+									Err(e) => {
+										let _ = ack.send(format!("batch() failed: {:?}", e));
+									}
+								}
+							}
+							"commit" => {
+								let mut res = Ok(());
+								for _ in 0..n_during_wait {
+									let r = if let Some(b) = own_batch.as_mut() {
+										b.put(Some(b'Z'), &k.to_be_bytes(), &vec![7u8; REC])
+									} else {
+										store.batch().and_then(|mut b| {
+											b.put(Some(b'Z'), &k.to_be_bytes(), &vec![7u8; REC])?;
+											b.commit()
+										})
+									};
+									k += 1;
+									if let Err(e) = r {
+										res = Err(format!("{:?}", e));
+										break;
+									}
+								}
+								if res.is_ok() {
+									if let Some(b) = own_batch.take() {
+										res = b.commit().map_err(|e| format!("{:?}", e));
+									}
+								}
+								let _ = ack.send(match res {
+									Ok(()) => "ok".into(),
+									Err(e) => e,
+								});
+							}
+							_ => break,
+						}
+					}
+					drop(own_batch);
+					drop(it);
+					let _ = ack.send("released".into());
+				})
+			};
+			let _ = t2_ack.recv_timeout(Duration::from_secs(60));
+			// probe: a plain read per tick; it stops ticking when the gate is closed
+			let probe = {
+				let store = store.clone();
+				let stop = stop.clone();
+				thread::spawn(move || {
+					global::set_local_chain_type(ChainTypes::AutomatedTesting);
+					while !stop.load(std::sync::atomic::Ordering::SeqCst) {
+						let _ = store.exists(Some(b'A'), b"probe");
+						let _ = p_tick_tx.send(());
+						thread::sleep(Duration::from_millis(5));
+					}
+				})
+			};
+			let spawn_writer = |name: &'static str, first_key: u32, count: u32| {
+				let store = store.clone();
+				let done = done_tx.clone();
+				thread::spawn(move || {
+					global::set_local_chain_type(ChainTypes::AutomatedTesting);
+					let r = store.batch().and_then(|mut b| {
+						for i in 0..count {
+							b.put(Some(b'A'), &(first_key + i).to_be_bytes(), &vec![9u8; REC])?;
+						}
+						b.commit()
+					});
+					let _ = done.send((name.to_string(), r.map_err(|e| format!("{:?}", e))));
+				})
+			};
+			let mut writers = vec![];
+			if self_iter {
+				let _ = t2_cmd.send("trigger");
+				match t2_ack.recv_timeout(Duration::from_secs(60)) {
+					Ok(a) if a == "ok" => {}
+					other => fails.push(format!("the batch() of the thread that holds its own iterator: {:?}", other)),
+				}
+			} else {
+				writers.push(spawn_writer("trigger", base + n_during_wait as u32 + 1, big));
+			}
+			// wait until the gate is observed closed (no probe tick for 300 ms), at most 8 s
+			{
+				let t0 = Instant::now();
+				let mut last = Instant::now();
+				while t0.elapsed() < Duration::from_secs(8) {
+					match p_tick.recv_timeout(Duration::from_millis(50)) {
+						Ok(()) => last = Instant::now(),
+						Err(_) => {}
+					}
+					if last.elapsed() > Duration::from_millis(300) {
+						break;
+					}
+				}
+			}
+			// parked at the gate
+			writers.push(spawn_writer("parked-1", base + n_during_wait as u32 + big + 2, if self_iter { big } else { 3 }));
+			writers.push(spawn_writer("parked-2", base + n_during_wait as u32 + big + 2 + big, 2));
+			thread::sleep(Duration::from_millis(100));
+			// ---- 3. more data is committed during the wait, then everything is closed
+			let _ = t2_cmd.send("commit");
+			match t2_ack.recv_timeout(Duration::from_secs(120)) {
+				Ok(a) if a == "ok" => {}
+				Ok(a) => fails.push(format!("commit of {} records of 32 KB during the wait: {}", n_during_wait, a)),
+				Err(_) => {
+					hung = true;
+					fails.push("the thread inside the gate did not finish its commits within 120 s".into());
+				}
+			}
+			let _ = t2_cmd.send("release");
+			let _ = t2_ack.recv_timeout(Duration::from_secs(60));
+			// ---- 4. the parked batches must get through and succeed
+			for _ in 0..writers.len() {
+				match done_rx.recv_timeout(Duration::from_secs(120)) {
+					Ok((_, Ok(()))) => {}
+					Ok((name, Err(e))) => fails.push(format!("batch '{}' released after the wait failed: {}", name, e)),
+					Err(_) => {
+						hung = true;
+						fails.push("a batch parked at the gate did not return within 120 s".into());
+						break;
+					}
+				}
+			}
+			stop.store(true, std::sync::atomic::Ordering::SeqCst);
+			if !hung {
+				let _ = t2.join();
+				let _ = probe.join();
+				for w in writers {
+					let _ = w.join();
+				}
+			}
+			let after = meta_info(&dir).unwrap_or((0, 0, 0));
+			hist.push(format!(
+				"step {}: resize due at map {} used {}, deferred by {}; {} records of 32 KB committed during the wait; released batches write {} records -> map {}",
+				step + 1, map_before, used_before, holder, n_during_wait, big, after.0
+			));
+			if after.0 > map_before {
+				n_bigger += 1;
+			}
+			out.line(
+				&format!("kv deferred {} {} {} {} {}", holder, n_during_wait, map_before, used_before, CHUNK),
+				&format!("{} {}", after.0, fails.len()),
+			);
+			if after.0 % 4096 != 0 {
+				fails.push(format!("map size {} after the wait is not a multiple of the page size", after.0));
+			}
+			if !fails.is_empty() {
+				n_fail += 1;
+				if hung {
+					n_hang += 1;
+				}
+				out.raw(&format!("#ORACLE-FAIL C18 deferred resize [{} {}]: {} | history: {}", holder, nsel, fails.join("; "), hist.join("; ")));
+				if hung {
+					break;
+				}
+			}
+		}
+		seq.push(format!("{}/{}: {}", holder, nsel, maps.iter().map(|m| (m / CHUNK).to_string()).collect::<Vec<_>>().join(">")));
+	}
+	out.raw(&format!(
+		"#STAT [deferred] variants={} growth steps with a deferred resize={} (map larger afterwards: {}) records committed during the waits={} failing steps={} hangs={}; map sizes in MiB at the triggers: {}",
+		variants.len(), n_steps, n_bigger, n_during, n_fail, n_hang, seq.join(" | ")
+	));
+	out.flush();
+	if n_hang > 0 {
+		std::process::exit(0);
+	}
+}
+
 fn main() {
 	if std::env::var("VERIF_KV_LOUD").is_err() {
 		quiet_panics();
@@ -6133,6 +6398,7 @@ fn main() {
 		"slowreader" => mode_slowreader(&work, seed, thorough),
 		"migrate" => mode_migrate(&work, seed, thorough),
 		"shared" => mode_shared(&work, seed, thorough),
+		"deferred" => mode_deferred(&work, seed, thorough),
 		"dropprobe" => mode_dropprobe(&work),
 		"newprobe" => mode_newprobe(&work, seed, thorough),
 		_ => {
